@@ -22,6 +22,8 @@ pub struct EncodeOpts {
     pub extra_at: u8,
     pub lower_header_names: bool,
     pub content_type_first: bool,
+    /// Content-Type header of the k-th part if it is a text part ("" or missing entry = no header, the default text/plain applies; RFC 7578 4.4/4.5)
+    pub text_ctypes: Vec<String>,
 }
 
 /// RFC 7578 encoder (boundary is chosen by the caller so that it does not occur in any content)
@@ -29,14 +31,21 @@ pub fn encode(parts: &[FormPart], o: &EncodeOpts) -> Vec<u8> {
     let mut out = vec![];
     let cd = if o.lower_header_names { "content-disposition" } else { "Content-Disposition" };
     let ct = if o.lower_header_names { "content-type" } else { "Content-Type" };
-    for p in parts {
+    for (k, p) in parts.iter().enumerate() {
         out.extend_from_slice(format!("--{}\r\n", o.boundary).as_bytes());
         match p {
             FormPart::Text { name, value } => {
                 if o.extra_headers && o.extra_at == 1 {
                     out.extend_from_slice(b"X-Custom: 1\r\n");
                 }
+                let tct = o.text_ctypes.get(k).map(|s| s.as_str()).unwrap_or("");
+                if !tct.is_empty() && o.content_type_first {
+                    out.extend_from_slice(format!("{ct}: {tct}\r\n").as_bytes());
+                }
                 out.extend_from_slice(format!("{cd}: form-data; name=\"{name}\"\r\n").as_bytes());
+                if !tct.is_empty() && !o.content_type_first {
+                    out.extend_from_slice(format!("{ct}: {tct}\r\n").as_bytes());
+                }
                 if o.extra_headers && o.extra_at != 1 {
                     out.extend_from_slice(b"X-Custom: 1\r\n");
                 }
@@ -156,7 +165,7 @@ pub fn run(args: &Args, rep: &mut Report) {
     if args.shard == 0 && args.start == 0 {
         // witness of the repaired finding: required File with an empty file input
         let parts = vec![FormPart::Text { name: "title".into(), value: "t".into() }, FormPart::File { name: "doc".into(), filename: String::new(), mime: "application/octet-stream".into(), content: vec![] }];
-        let body = encode(&parts, &EncodeOpts { boundary: "XbOuNd".into(), extra_headers: false, extra_at: 0, lower_header_names: false, content_type_first: false });
+        let body = encode(&parts, &EncodeOpts { boundary: "XbOuNd".into(), extra_headers: false, extra_at: 0, lower_header_names: false, content_type_first: false, text_ctypes: vec![] });
         rep.eval();
         match catch(|| from_bytes::<TA>(&body).map(|_| ()).map_err(|e| e.to_string())) {
             Ok(Err(_)) => rep.count("shape_mismatch_refused"),
@@ -208,9 +217,12 @@ fn one(rep: &mut Report, case: u64, rng: &mut Rng, small: bool) {
         1 => {
             // TB { title: String, doc: Option<File>, pics: Vec<File>, note: Option<&str> }
             parts.push(FormPart::Text { name: "title".into(), value: title.clone() });
-            match rng.below(4) {
+            match rng.below(6) {
                 0 => {}
                 1 => parts.push(FormPart::File { name: "doc".into(), filename: String::new(), mime: "application/octet-stream".into(), content: vec![] }),
+                // `<input type=file multiple>` behind an Option<File>: two or three files do not fit "at most one"
+                2 => { for _ in 0..rng.range(2, 4) { let c = content(rng, &mut classes); parts.push(FormPart::File { name: "doc".into(), filename: fname(rng), mime: mime(rng), content: c }) } fits = false; why = "several-files-into-option" }
+                3 => { parts.push(FormPart::Text { name: "doc".into(), value: "not a file".into() }); fits = false; why = "text-where-optional-file-expected" }
                 _ => { let c = content(rng, &mut classes); parts.push(FormPart::File { name: "doc".into(), filename: fname(rng), mime: mime(rng), content: c }) }
             }
             let npics = *rng.pick_weighted(&[(2, 0usize), (2, 1), (2, 2), (2, 3), (1, 5)]);
@@ -257,7 +269,18 @@ fn one(rep: &mut Report, case: u64, rng: &mut Rng, small: bool) {
     }
     rng.shuffle(&mut groups);
     let ordered: Vec<FormPart> = groups.into_iter().flatten().collect();
-    let opts = EncodeOpts { boundary: gen_boundary(rng, &ordered), extra_headers: rng.chance(1, 3), extra_at: rng.below(3) as u8, lower_header_names: rng.chance(1, 4), content_type_first: rng.chance(1, 4) };
+    // one form in three labels (some of) its text parts the way non-browser clients do (Java / Apache HttpClient / Spring / .NET write the charset in upper case)
+    let label = rng.chance(1, 3);
+    let text_ctypes: Vec<String> = ordered.iter().map(|p| match p {
+        FormPart::Text { value, .. } if label && rng.chance(2, 3) => {
+            let mut pool = vec!["text/plain", "text/plain; charset=UTF-8", "text/plain;charset=utf-8", "text/plain; charset=\"UTF-8\"", "text/plain; charset=utf8", "Text/Plain; Charset=Utf-8"];
+            if value.is_ascii() { pool.extend_from_slice(&["text/plain; charset=US-ASCII", "text/plain; charset=us-ascii"]) }
+            rng.pick(&pool).to_string()
+        }
+        _ => String::new(),
+    }).collect();
+    if text_ctypes.iter().any(|t| !t.is_empty()) { classes.push("labelled-text-part"); rep.count("forms_with_labelled_text_parts") }
+    let opts = EncodeOpts { boundary: gen_boundary(rng, &ordered), extra_headers: rng.chance(1, 3), extra_at: rng.below(3) as u8, lower_header_names: rng.chance(1, 4), content_type_first: rng.chance(1, 4), text_ctypes };
     let body = encode(&ordered, &opts);
     classes.sort();
     classes.dedup();
